@@ -1,4 +1,6 @@
 """C17 -- Jaqal text, the builder API and Q-syntax build the same circuit."""
+import random
+
 from .. import sx, gen, lib, meaning as M, monitors, minimise
 from .common import sig, prog_features, case_prog
 from . import builder_route
@@ -16,7 +18,7 @@ RULE = ("programs in the common subset of the three front ends: lets (named / an
         "non-trivial = program has an anonymous object, a nested block or a macro; distinct = program spec / (program, choices)")
 ASSUMPTIONS = ["the auto-naming scheme is not prescribed: names are read back; only freshness and equality of the circuits are judged"]
 TIERS = {"quick": {"shards": 8, "budget_s": 100}, "thorough": {"shards": 16, "budget_s": 300}}
-REQUIRE = {"qsyntax-functions-called-twice": 1500, "programs": 1500, "anonymous-let": 300, "anonymous-register": 300, "user-name-like-auto-name": 200,
+REQUIRE = {"text-route-with-random-layout-and-comments": 1500, "qsyntax-functions-called-twice": 1500, "programs": 1500, "anonymous-let": 300, "anonymous-register": 300, "user-name-like-auto-name": 200,
            "implicit-wrap-expected": 300, "no-wrap-expected": 300, "pairs-compared": 4000, "subcircuit-with-count": 100,
            "full:programs": 1000, "full:macro-eager": 300, "full:loop-eager": 100, "full:map-eager": 200, "full:behaviour-compared": 3000,
            "full:eager-macro-calling-macro": 100}
@@ -307,7 +309,8 @@ def judge(case):
         fails.append(("auto-name-collides-with-user-name", {"auto": auto, "user": user_names}))
     prog = to_program(spec, names)
     info["wrap"] = not begins_with_prepare(spec["body"])
-    text = sx.to_text(prog)
+    # the text a user writes has its own layout and comments; the circuit must not depend on them
+    text = sx.to_text(prog, random.Random(case["lseed"]), comments=True) if case.get("lseed") is not None else sx.to_text(prog)
     ot = lib.outcome(lib.parse, text)
     ob = lib.outcome(lib.build, prog)
     oo = lib.outcome(via_builder, prog)
@@ -377,7 +380,7 @@ def judge_full(case):
     prog = case_prog(case)
     if not sx.legal_nesting(prog):
         return "skipped:illegal-nesting", [], {}
-    text = sx.to_text(prog)
+    text = sx.to_text(prog, random.Random(case["lseed"]), comments=True) if case.get("lseed") is not None else sx.to_text(prog)
     ot = lib.outcome(lib.parse, text)
     if ot[0] != "ok":
         return "skipped:input-rejected", [], {}
@@ -513,14 +516,18 @@ def shard(ctx):
     while i < n and not rec.expired():
         i += 1
         spec = gen_spec(ctx.rng)
-        process(ctx, {"spec": spec})
+        case = {"spec": spec}
+        if ctx.rng.random() < 0.5:
+            case["lseed"] = ctx.rng.randrange(1 << 30)
+            rec.count("text-route-with-random-layout-and-comments")
+        process(ctx, case)
         if i <= 3:
             rec.sample(spec)
         if i % 4 == 0:
             rng = ctx.rng
             g = gen.ProgGen(rng, p_hostile_names=0.0, max_depth=rng.choice([2, 3]), wild_numbers=False, macro_sub=rng.random() < 0.5,
                             n_macros=(1, 4), p_usepulses=0.2)
-            process_full(ctx, {"prog": g.program(), "bseed": rng.randrange(1 << 30)}, seen)
+            process_full(ctx, {"prog": g.program(), "bseed": rng.randrange(1 << 30), "lseed": rng.randrange(1 << 30) if rng.random() < 0.5 else None}, seen)
     monitors.report_contracts(rec)
 
 
